@@ -107,6 +107,13 @@ func (st LString) Format(f fmt.State, c rune) {
 		} else {
 			defaultFormat(string(st), f, 's')
 		}
+	case 's':
+		// width and precision count bytes as in C, not UTF-8 runes
+		b := []byte(st)
+		if p, ok := f.Precision(); ok && p < len(b) {
+			b = b[:p]
+		}
+		formatBytes(f, b)
 	default:
 		defaultFormat(string(st), f, c)
 	}
